@@ -84,8 +84,10 @@ impl Class {
                 | Class::EncapsDisabled
                 | Class::Panic
                 | Class::Unchanged
-                | Class::IdUnique
         )
+        // (a reused attribute id is *not* diverging: the model keeps the two identities apart,
+        // which is exactly what C01-C06 state; what the conflation then lets a key open is a
+        // violation of those properties, not an artefact)
     }
 }
 
